@@ -1284,7 +1284,15 @@ impl Kademlia {
                                     KBucketEntry::Occupied(entry) => Some(entry.clone()),
                                     KBucketEntry::Vacant(entry) if !entry.address_store.is_empty() =>
                                         Some(entry.clone()),
-                                    _ => None,
+                                    // A requested peer that is unknown stays a target: it fails
+                                    // to be dialed and counts as a failure towards the quorum
+                                    // instead of silently shrinking the set the quorum is
+                                    // computed from.
+                                    _ => Some(KademliaPeer::new(
+                                        peer,
+                                        Vec::new(),
+                                        ConnectionType::NotConnected,
+                                    )),
                                 }
                             }).collect();
 
